@@ -107,9 +107,11 @@ def normalize_ellipsis(index, size):
         x[i] == x[normalize_ellipsis(i, len(x.shape))]
     """
     left, right = parse_ellipsis(index)
-    if len(left) + len(right) > size:
+    # None inserts a new dimension rather than indexing an existing one
+    used = sum(1 for part in left + right if part is not None)
+    if used > size:
         raise ValueError(f"Index is too wide: {index}")
-    middle = (slice(None),) * (size - len(left) - len(right))
+    middle = (slice(None),) * (size - used)
     return left + middle + right
 
 
